@@ -26,6 +26,7 @@ class RayEval(poly.PathEval):
         self.inputs = inputs
         self.switch_max = switch_max
         self.switches = {}
+        self.small = {}       # decision key -> the outcome that selects the polynomial (small-angle) branch
 
     def dom_const(self, c):
         """a floating-point literal that is the nearest double of a small rational (1/6, 1/120, ...) denotes that rational"""
@@ -55,6 +56,8 @@ class RayEval(poly.PathEval):
                     x, y = (b, a) if swap else (a, b)
                     key = "lt|%r|%r" % (sorted(x.c.items()), sorted(y.c.items()))
                     self.switches[key] = (x, y)
+                    # x < y with y the tiny constant: True selects the small-angle branch; with x the constant: False does
+                    self.small[key] = bool(self._is_const(y) and y.c)
                     if key in dec:
                         return dec[key] != neg
                     raise poly._NeedDecision(key)
@@ -73,6 +76,13 @@ class RayEval(poly.PathEval):
         return set(s.c) <= {0}
 
     def dom_cmp(self, pred, a, b):
+        # a quantity that is identically zero along the ray (e.g. B_j(u) v_j at a u where B_j vanishes) compares as 0
+        if not a.c and self._is_const(b) and b.c:
+            v = -1 if b.c[0] > 0 else 1
+            return {"eq": False, "ne": True, "lt": v < 0, "le": v < 0, "gt": v > 0, "ge": v > 0, "rd": True, "no": False}[pred]
+        if not b.c and self._is_const(a) and a.c:
+            v = 1 if a.c[0] > 0 else -1
+            return {"eq": False, "ne": True, "lt": v < 0, "le": v < 0, "gt": v > 0, "ge": v > 0, "rd": True, "no": False}[pred]
         # small-angle switch: vanishing quantity against a tiny constant
         for x, y in ((a, b), (b, a)):
             if self._is_const(y) and y.c and 0 < abs(y.c[0]) <= self.switch_max and (not x.c or x.val() >= 1):
@@ -83,6 +93,13 @@ class RayEval(poly.PathEval):
         lead = d.c[d.val()]
         v = 1 if lead > 0 else -1
         return {"eq": False, "ne": True, "lt": v < 0, "le": v < 0, "gt": v > 0, "ge": v > 0, "rd": True, "no": False}[pred]
+
+    def allow(self, dec, cond, value):
+        """explore the all-closed-form path and, for every switch separately, the path on which only that switch takes its polynomial
+        branch: each polynomial branch is compared on its own; combinations of several add nothing and grow as 2^k"""
+        if cond not in self.small or value != self.small[cond]:
+            return True
+        return not any(k in self.small and v == self.small[k] for k, v in dec.items())
 
     def dom_call(self, name, args):
         n = name.split(".f64")[0].split(".f32")[0]
